@@ -547,6 +547,42 @@ def describe_rejection(tout):
     return s
 
 
+# ---------------------------------------------------------------- Apalache (inductive invariant of PgServer)
+
+def apalache(cx, d, cinit, init, inv, length, expect_ok=True, timeout=1800):
+    cmd = ["timeout", str(timeout), "apalache-mc", "check", "--cinit=" + cinit, "--next=SNext", "--init=" + init,
+           "--inv=" + inv, "--length=%d" % length, "--out-dir=" + os.path.join(d, "apa-out"), "PgServerInd.tla"]
+    p = subprocess.run(cmd, cwd=d, stdout=subprocess.PIPE, stderr=subprocess.STDOUT, text=True)
+    ok = "The outcome is: NoError" in p.stdout
+    bad = "The outcome is: Error" in p.stdout
+    if not ok and not bad:
+        raise Machinery("apalache gave no outcome for %s/%s:\n%s" % (init, inv, p.stdout[-2000:]))
+    if ok != expect_ok:
+        raise Machinery("apalache: obligation %s from %s (length %d, %s) %s - the specification or its invariant is wrong, "
+                        "not the code:\n%s" % (inv, init, length, cinit, "failed" if expect_ok else "unexpectedly holds",
+                                               p.stdout[-2000:]))
+    return ok
+
+
+def pgserver_inductive(cx):
+    """The design-level part of C16 for a population larger than TLC's: an inductive invariant of the repaired
+    lifecycle (PgServerInd.tla), discharged by Apalache; probes against vacuity; the pinned design as negative control."""
+    d = spec_dir(cx, "apalache")
+    t = time.time()
+    apalache(cx, d, "ConstInit", "SInit", "IndInv", 0)
+    apalache(cx, d, "ConstInit", "IndInit", "IndInv", 1)
+    apalache(cx, d, "ConstInit", "IndInit", "Safety", 0)
+    apalache(cx, d, "ConstInit", "IndInit", "NoStartAfterReturnStep", 1)
+    for probe, n in (("ProbeNoReturn", 0), ("ProbeNoHandler", 0), ("ProbeStepFreezes", 1)):
+        apalache(cx, d, "ConstInit", "IndInit", probe, n, expect_ok=False)
+    apalache(cx, d, "ConstInitPinned", "IndInit", "IndInv", 1, expect_ok=False)
+    cx.cov["apalache_obligations"] = {"discharged": ["SInit => IndInv", "IndInv /\\ SNext => IndInv'", "IndInv => NoPanic /\\ CounterOK /\\ Graceful /\\ ServeOK",
+                                                     "IndInv /\\ SNext => NoStartAfterReturnStep"],
+                                      "population": "4 Close callers, 4 connections", "vacuity_probes_violated": 3,
+                                      "negative_control": "pinned design fails the inductive step", "seconds": round(time.time() - t, 1)}
+    log("[apalache] inductive invariant of PgServer (repaired): 4 obligations discharged, 3 probes and the pinned control violated as expected (%.0fs)" % (time.time() - t))
+
+
 # ---------------------------------------------------------------- recorded conversations (PgFlow)
 
 FLOW_ATTR = {"start": "C12", "auth": "C01", "simple": "C05", "ext": "C06", "term": "C19", "other": "C06"}
